@@ -262,6 +262,12 @@ func ZZ_C19_bmc() {
 		} else {
 			zzAssert(o.Status.FrameCount == n-N+1, "bmc: oldest is next to be overwritten")
 		}
+		if N >= 2 && n >= 1 {
+			// (with nothing written since creation/reset there is no frame before the
+			// current one: the statement is silent there)
+			r := fl.CopyRecent()
+			zzAssert(r.Status.FrameCount == n-1, "bmc: recent is the frame before the current one")
+		}
 	}
 	zzReach("bmc end")
 }
